@@ -36,7 +36,8 @@ ASSUMPTIONS = ["an interruption of the underlying socket is socket.timeout or an
                "before it transfers any byte (scripted: EWOULDBLOCK, EINTR, EPIPE, ECONNRESET, EIO, errno-less)",
                "every delivery of the network carries at least one byte and recvsize >= 1 (an empty delivery is a close)",
                "sock.send accepts at least one byte of a non-empty buffer or times out",
-               "wall-clock time-outs do not fire (timeout=None or 1000 s; time-outs come from the scripted socket)",
+               "time is the scripted clock (socketutils.time replaced): it moves only when a slow event is delivered, "
+               "then far beyond any deadline; timeout is None, 0 or 1000 s",
                "flags=0, sizes >= 0, one thread"]
 TRUSTED = ["Model/C12_Model.v is hand-written; tied to boltons.socketutils by the correspondence run",
            "harness/c12.py scripted socket and serialiser",
@@ -656,13 +657,14 @@ def gen_exhaustive_family(rng, tier):
     stream = rand_stream(rng, n, alpha)
     ops = gen_recv_ops(rng, stream, alpha, rng.randint(1, 4), want_recv=False)
     base = {"kind": "bs", "maxsize": rng.choice([1, 2, 3, 4, 6, 100]),
-            "recvsize": rng.choice([1, 2, 3, 64]), "timeout": None, "script": [], "ops": ops, "retry": True}
+            "recvsize": rng.choice([1, 2, 3, 64]), "timeout": rng.choice([None, 1000.0]), "script": [], "ops": ops,
+            "retry": True}
     for parts in compositions(n):
         cuts = []
         for p in parts:
             if rng.random() < 0.25:
                 cuts.append(rand_intr(rng, 0.3))
-            cuts.append(p)
+            cuts.append(["S", p] if rng.random() < 0.12 else p)
         yield dict(base, net=cut_stream(stream, cuts))
 
 
@@ -676,10 +678,11 @@ def gen_delim_family(rng, tier):
     net = cut_stream(stream, cuts)
     delims = [[a] for a in alpha] + [[a, b] for a in alpha for b in alpha] + [stream[:3], [alpha[0]] * 3]
     rs = rng.choice([1, 2, 64])
+    tmo = rng.choice([None, 1000.0])
     for d in delims:
         for m in range(0, n + 2):
             w = rng.random() < 0.5
-            yield {"kind": "bs", "maxsize": 100, "recvsize": rs, "timeout": None, "net": net, "script": [],
+            yield {"kind": "bs", "maxsize": 100, "recvsize": rs, "timeout": tmo, "net": net, "script": [],
                    "ops": [["until", d, m, w], ["until", d, "unset", not w], ["close", None]], "retry": True}
 
 
@@ -735,7 +738,7 @@ def gen_sweep(rng):
                     for t, p in zip(tm, parts):
                         if t:
                             cuts.append(rand_intr(rng, 0.3))
-                        cuts.append(p)
+                        cuts.append(["S", p] if rng.random() < 0.1 else p)
                     if tm[-1]:
                         cuts.append(rand_intr(rng, 0.3))
                     nets.append(cut_stream(stream, cuts))
@@ -746,18 +749,19 @@ def gen_sweep(rng):
                 ops = [["until", d, m, w], ["peek", rng.randint(0, 2)], ["size", rng.randint(0, 2)],
                        ["until", d, "unset", not w], ["close", rng.choice(["unset", 0, 1, None])]]
                 yield {"kind": "bs", "maxsize": rng.choice([2, 3, 100]), "recvsize": rng.choice([1, 2, 3, 64]),
-                       "timeout": None, "net": net, "script": [], "ops": ops, "retry": True}
+                       "timeout": rng.choice([None, 1000.0]), "net": net, "script": [], "ops": ops, "retry": True}
 
 
 def gen_send_sweep(rng):
     """Thorough tier: buffer(a); send(b); buffer(c); flush(); flush() under EVERY script of length <= 4 over
-    {take 1 byte, take 2 bytes, take all, socket.timeout, EWOULDBLOCK} (780 scripts), with a/b/c of length 0-3,
+    {take 1 byte, take 2 bytes, take all, socket.timeout, EWOULDBLOCK, slow 1 byte, slow all} (2 801 scripts),
+    with a/b/c of length 0-3,
     repeated after an interruption."""
-    alphabet = [0, 1, 30, "T", ["E", 11]]
+    alphabet = [0, 1, 30, "T", ["E", 11], ["S", 0], ["S", 30]]
     for ln in range(0, 5):
         for sc in itertools.product(alphabet, repeat=ln):
             a, b, c = ([rng.randrange(256) for _ in range(rng.randint(0, 3))] for _ in range(3))
-            yield {"kind": "bs", "maxsize": 10, "recvsize": 4, "timeout": rng.choice([None, 0, 1000.0]), "net": [],
+            yield {"kind": "bs", "maxsize": 10, "recvsize": 4, "timeout": rng.choice([None, 0, 1000.0, 1000.0]), "net": [],
                    "script": list(sc), "ops": [["buffer", a], ["send", b, rng.choice(["send", "sendall"])],
                                                ["buffer", c], ["flush"], ["flush"]], "retry": True}
 
